@@ -10,16 +10,31 @@
 #include <errno.h>
 #include <string.h>
 #include <arpa/inet.h>
+#ifdef NANOLANG_VERIF
+#include <stdlib.h>
+#endif
 
 /* ========================================================================
  * Path helpers
  * ======================================================================== */
 
 void vmd_socket_path(char *buf, size_t size) {
+#ifdef NANOLANG_VERIF
+    {   /* each verification run talks to its own daemon */
+        const char *p = getenv("NANOLANG_VMD_SOCKET");
+        if (p && *p) { snprintf(buf, size, "%s", p); return; }
+    }
+#endif
     snprintf(buf, size, "/tmp/nanolang_vm_%u.sock", (unsigned)getuid());
 }
 
 void vmd_pid_path(char *buf, size_t size) {
+#ifdef NANOLANG_VERIF
+    {
+        const char *p = getenv("NANOLANG_VMD_PIDFILE");
+        if (p && *p) { snprintf(buf, size, "%s", p); return; }
+    }
+#endif
     snprintf(buf, size, "/tmp/nanolang_vm_%u.pid", (unsigned)getuid());
 }
 
